@@ -1,0 +1,37 @@
+//go:build verif
+
+package metachain
+
+// Contracts for govc (/verif). Comment-only file: no executable code, not part of the default build.
+
+/*@
+const disabled = 18446744073709551615
+
+struct trigger
+  guarded_by mutTrigger: epoch, isEpochStart, currentRound, currEpochStartRound, prevEpochStartRound, nextEpochStartRound, epochFinalityAttestingRound
+  invariant cfg:    1 <= minRoundsBetweenEpochs && minRoundsBetweenEpochs <= roundsPerEpoch
+  invariant I_trig: nextEpochStartRound == disabled || nextEpochStartRound >= currEpochStartRound + minRoundsBetweenEpochs
+
+func (t *trigger) ForceEpochStart(round uint64)
+  requires inv(t)
+  requires rounds-below-2^63: t.currEpochStartRound < 9223372036854775808 && t.roundsPerEpoch < 9223372036854775808
+  ensures  inv(t)
+  ensures  forced-or-disabled: t.nextEpochStartRound == disabled || t.nextEpochStartRound >= round
+  ensures  keeps-epoch: t.epoch == old(t.epoch) && t.currEpochStartRound == old(t.currEpochStartRound) && t.isEpochStart == old(t.isEpochStart)
+  assigns  t.nextEpochStartRound
+
+func (t *trigger) Update(round uint64, nonce uint64)
+  requires inv(t)
+  requires monotone: round >= t.currEpochStartRound
+  requires rounds-below-2^63: round < 9223372036854775808 && t.roundsPerEpoch < 9223372036854775808
+  requires epochs-below-2^32: t.epoch < 4294967295
+  ensures  inv(t)
+  ensures  step: t.epoch == old(t.epoch) || t.epoch == old(t.epoch) + 1
+  ensures  min-length: t.epoch == old(t.epoch) + 1 ==> round - old(t.currEpochStartRound) >= t.minRoundsBetweenEpochs
+  ensures  started: t.epoch == old(t.epoch) + 1 ==> !old(t.isEpochStart) && nonce >= 4 && t.currEpochStartRound == round && t.isEpochStart && t.nextEpochStartRound == disabled && t.prevEpochStartRound == old(t.currEpochStartRound)
+  ensures  max-length: !old(t.isEpochStart) && nonce >= 4 && round > old(t.currEpochStartRound) + t.roundsPerEpoch ==> t.epoch == old(t.epoch) + 1
+  ensures  not-early: old(t.nextEpochStartRound) == disabled && round < disabled && round <= old(t.currEpochStartRound) + t.roundsPerEpoch ==> t.epoch == old(t.epoch)
+  ensures  not-before-forced: round < old(t.nextEpochStartRound) && round <= old(t.currEpochStartRound) + t.roundsPerEpoch ==> t.epoch == old(t.epoch)
+  ensures  unchanged: t.epoch == old(t.epoch) ==> t.currEpochStartRound == old(t.currEpochStartRound) && t.nextEpochStartRound == old(t.nextEpochStartRound) && t.isEpochStart == old(t.isEpochStart)
+  assigns  t.currentRound, t.epoch, t.isEpochStart, t.prevEpochStartRound, t.currEpochStartRound, t.nextEpochStartRound
+@*/
